@@ -5,6 +5,8 @@
 import Hv.Driver.Core
 import Hv.Driver.Vmdk
 import Hv.Meta
+import Hv.HddOpen
+import Hv.Stream
 namespace Hv.Driver
 open Hv
 
@@ -124,6 +126,34 @@ def metaCmd (st : St) : List String → String
     match parseElem (toks.length + 1) toks with
     | some (root, []) => res ((Meta.descriptor root).map hddOut)
     | _ => "bad-args"
+  | "meta.hddopen" :: null :: deftop :: guid :: desc :: align :: nf :: rest =>
+    -- C12: `HDD(path).open(guid)` up to the streams handed to `StorageStream`.
+    --   desc = 0 (no DiskDescriptor.xml) | 1; nf file tokens `<name hex>=<file id>` (what `_open_image` can open);
+    --   then the element tree of the descriptor as for `meta.hdd` (no tokens: the XML parser raised)
+    match null.toNat?, deftop.toNat?, align.toNat?, nf.toNat? with
+    | some n, some t, some a, some k =>
+      let names := (rest.take k).filterMap fun tok => match tok.splitOn "=" with
+        | [h, id] => (hexToString h).map fun nm => (nm, id)
+        | _ => none
+      let toks := rest.drop k
+      let descr : Option (Except Err Meta.Descriptor) :=
+        if desc = "0" then none
+        else match parseElem (toks.length + 1) toks with
+          | some (root, []) => some (Meta.descriptor root)
+          | _ => some (.error .other)
+      let dir : HddOpen.Dir :=
+        { descriptor := descr
+          openImage := fun nm => match (names.find? (·.1 = nm)).bind (fun p => st.file? p.2) with
+            | some f => .ok f
+            | none => .error .other
+          hdsStream := fun v off len => do
+            let (_, s0) ← (AS.init v.size a).seek off .set
+            let (d, _) ← s0.read v.read len
+            pure d }
+      match HddOpen.open dir n t (if guid = "-" then none else guid.toNat?) with
+      | .error e => s!"err {e}"
+      | .ok l => s!"ok n={l.length} " ++ " ".intercalate (l.map fun (s, r) => s!"{s.start}:{s.end_}:{if r.isSome then 1 else 0}")
+    | _, _, _, _ => "bad-args"
   | _ => "bad-cmd"
 
 end Hv.Driver
